@@ -651,6 +651,9 @@ pub fn parent_main(p: &dyn Property, tier: Tier) -> RunResult {
         }
     }
     sum.violations.sort();
+    // worker-level failures (a worker that is not deterministic, or that could not be restarted) put every verdict of the
+    // run in doubt; a case the machinery could not judge ("case #n: MACHINERY ...") leaves the verdicts of the other cases intact
+    let worker_level_failure = !machinery.is_empty();
     machinery.extend(sum.machinery.iter().cloned());
     let known = KnownFindings::load();
     let replay_dir = verif_dir().join("replays").join(id);
@@ -753,10 +756,13 @@ pub fn parent_main(p: &dyn Property, tier: Tier) -> RunResult {
         wall,
         exhaustive
     );
-    let exit_code = if !machinery.is_empty() {
+    let exit_code = if worker_level_failure {
         2
     } else if sum.violations_total > 0 {
+        // demonstrated on completed, replayable cases; cases the machinery could not judge are listed above and keep exhaustive=false
         1
+    } else if !machinery.is_empty() {
+        2
     } else {
         0
     };
